@@ -218,8 +218,10 @@ fn check_tables(cx: &Ctx) -> Result<u64, String> {
             }
         }
     }
-    if Palette::default() != pal(&palette::VGA) || anstyle_lossy::palette::DEFAULT != pal(&palette::VGA) {
-        return Err("default palette is not VGA on this platform".into());
+    // which palette is the default is not part of the property; it must be *a* palette the
+    // conversions work with (it is one of the targets below when it equals a published table)
+    if Palette::default() != anstyle_lossy::palette::DEFAULT {
+        return Err("Palette::default() differs from palette::DEFAULT".into());
     }
     if anstyle_lossy::palette::VGA != pal(&palette::VGA) || anstyle_lossy::palette::WIN10_CONSOLE != pal(&palette::WIN10) {
         return Err("built-in palettes differ from the published tables".into());
